@@ -414,6 +414,9 @@ func (c *Checked) checkLogRules(i int, op Op, res *OpResult, evs []Event) {
 			if e.Exec != -2 && e.Exec < 100 {
 				delete(inCB, e.Fn)
 			}
+			if e.Exec == -2 && inCB[e.Fn] && len(e.Args) == 1 {
+				c.checkOwnResultFromCallback(i, e, evs[:k])
+			}
 		case EvEnter:
 			f := &c.H.Funcs[e.Fn]
 			if op.Kind != OpInvoke {
@@ -1452,5 +1455,48 @@ func (c *Checked) checkInfo(i int, op Op, res *OpResult, evs []Event) {
 		}
 		catIDs[f.Cat] = info.ID
 		catIDRev[info.ID] = f.Cat
+	}
+}
+
+// checkOwnResultFromCallback: a function's callback asked the function's own
+// scope for the function's own first result right after a *successful*
+// execution. A decorator's key then resolves to what that decorator just
+// returned (it is the nearest enclosing decorator for its own scope, C12); a
+// constructor's key to what it just returned, unless a decorator stands on the
+// path (then the decorator's output, which is checked where the decorator runs).
+func (c *Checked) checkOwnResultFromCallback(i int, e *Event, before []Event) {
+	f := &c.H.Funcs[e.Fn]
+	if f.ReKey != nil || !c.modelOK() {
+		return
+	}
+	var exit *Event
+	for b := len(before) - 1; b >= 0; b-- {
+		if before[b].Kind == EvExit && before[b].Fn == e.Fn {
+			exit = &before[b]
+			break
+		}
+	}
+	if exit == nil || exit.Out != OutOK || len(exit.Minted) == 0 {
+		return
+	}
+	lr := f.LeafResults()
+	if len(lr) == 0 || len(lr[0].Keys) == 0 {
+		return
+	}
+	k := lr[0].Keys[0]
+	if f.Role == RoleCtor {
+		n := c.M.ByFn[e.Fn]
+		if n == nil || len(c.M.DecsOnPath(n.Home, k, nil)) > 0 {
+			return
+		}
+	}
+	c.probe("own_result_from_callback")
+	want := canonMembers(k, exit.Minted[0])
+	if k.IsGroup() {
+		return // a group also holds the members of other feeders
+	}
+	got := e.Args[0].Serials
+	if len(got) != 1 || len(want) != 1 || got[0] != want[0] {
+		c.viol(i, "own-result-from-callback", fmt.Sprintf("%s f%d returned %v for %s; a request for that key issued from its callback received %s", f.Role, e.Fn, want, k, c.describeSerials(got)), "C12", "C02", "C01")
 	}
 }
